@@ -8,6 +8,7 @@ CHECKS = {
             {"pkg": "pure", "test": "TestRegressD2", "quick": 1, "thorough": 1, "shards": 1},
         {"pkg": "pure", "test": "TestC17LWW", "quick": 20000, "thorough": 1000000, "shards_quick": 8, "shards_thorough": 16},
         {"pkg": "sim", "test": "TestC17Observer", "quick": 1500, "thorough": 60000, "shards_quick": 4, "shards_thorough": 8},
+        {"pkg": "sim", "test": "TestC17Stream", "quick": 800, "thorough": 30000, "shards_quick": 4, "shards_thorough": 8},
         ],
         "engine": "PURE+SIM",
         "level_text": "Stateful property-based test: generated upsert/delete/compact/leave sequences on the real gossip state object are compared step by step with a reference last-write-wins map (visible keys, tombstones, version freshness, no-op detection, compaction effects). Exploration only: shows the property for the generated sequences.",
@@ -20,6 +21,7 @@ CHECKS["C15"] = {
     "subs": [
         {"pkg": "pure", "test": "TestC15Select", "quick": 20000, "thorough": 800000, "shards_quick": 6, "shards_thorough": 12},
         {"pkg": "pure", "test": "TestC15Balancer", "quick": 10000, "thorough": 400000, "shards_quick": 4, "shards_thorough": 8},
+        {"pkg": "pure", "test": "TestC15Churn", "quick": 10000, "thorough": 400000, "shards_quick": 4, "shards_thorough": 8},
         {"pkg": "pure", "test": "TestC15Concurrent", "quick": 3000, "thorough": 100000, "shards_quick": 4, "shards_thorough": 8},
     ],
     "engine": "PURE",
@@ -74,7 +76,8 @@ CHECKS["C04"] = {
 CHECKS["C11"] = {
     "subs": [{"pkg": "sim", "test": "TestKnownF2", "quick": 1, "thorough": 1, "shards": 1},
              {"pkg": "sim", "test": "TestC11Async", "quick": 24, "thorough": 800, "shards_quick": 4, "shards_thorough": 16},
-             {"pkg": "sim", "test": "TestC11", "quick": 6000, "thorough": 150000, "shards_quick": 8, "shards_thorough": 16, "timeout_thorough": 7200}],
+             {"pkg": "sim", "test": "TestC11", "quick": 6000, "thorough": 150000, "shards_quick": 8, "shards_thorough": 16, "timeout_thorough": 7200},
+             {"pkg": "sim", "test": "TestC11Return", "quick": 300, "thorough": 12000, "shards_quick": 4, "shards_thorough": 12}],
     "engine": "SIM",
     "level_text": "Simulated membership histories on a virtual clock with boundary-directed time steps; invariants I1-I6 are checked after every atomic action. Known finding F2 is recognised by its structural signature. Exploration only.",
     "technique": "stateful PBT (rapid) on a virtual clock, invariant oracle over the membership history",
@@ -99,6 +102,7 @@ CHECKS["C13"] = {
         {"pkg": "pure", "test": "TestC13Delta", "quick": 600, "thorough": 40000, "shards_quick": 6, "shards_thorough": 12},
         {"pkg": "pure", "test": "TestC13Digest", "quick": 600, "thorough": 40000, "shards_quick": 3, "shards_thorough": 8},
         {"pkg": "pure", "test": "TestC13GossipSender", "quick": 100, "thorough": 3000, "shards_quick": 3, "shards_thorough": 8},
+        {"pkg": "pure", "test": "TestC13Relay", "quick": 3000, "thorough": 300000, "shards_quick": 3, "shards_thorough": 8},
         {"pkg": "pure", "test": "TestC13Hostile", "quick": 40000, "thorough": 1500000, "shards_quick": 6, "shards_thorough": 16},
         {"pkg": "fuzz", "fuzz": "FuzzHandlePacket", "quick": 1, "thorough": 1, "fuzztime_thorough": 150, "workers": 16},
         {"pkg": "fuzz", "fuzz": "FuzzHandleStream", "quick": 1, "thorough": 1, "fuzztime_thorough": 150, "workers": 16},
